@@ -171,6 +171,23 @@ pub fn run(c: &Case, rep: &mut Report) {
             }
             rep.count("inserted-instructions-in-output", marker_offsets.len() as u64);
         }
+        // independent of the pairing: the two offsets of a pair must be starts of instructions with the same opcode
+        let mut in_ops: HashMap<usize, std::mem::Discriminant<Operator>> = HashMap::new();
+        for f in &din.funcs {
+            if let Some(b) = &f.body {
+                for o in &b.ops {
+                    in_ops.insert(o.offset, std::mem::discriminant(&o.op));
+                }
+            }
+        }
+        let mut out_ops: HashMap<usize, std::mem::Discriminant<Operator>> = HashMap::new();
+        for f in &dout.funcs {
+            if let Some(b) = &f.body {
+                for o in &b.ops {
+                    out_ops.insert(o.offset, std::mem::discriminant(&o.op));
+                }
+            }
+        }
         let mut n = 0;
         let mut wrong: Vec<(usize, usize, usize)> = Vec::new();
         for l in end.str_or(&format!("ct.map.{}", label), "").lines() {
@@ -197,6 +214,19 @@ pub fn run(c: &Case, rep: &mut Report) {
             if marker_offsets.contains(&b) {
                 rep.violation(c, "C11/pair-points-at-inserted-instruction", &format!("{}: pair ({}, {}) designates an instruction inserted by the transformation", label, a, b), &blob);
                 continue;
+            }
+            if alt.get(&a) != Some(&b) {
+                match (in_ops.get(&a), out_ops.get(&b)) {
+                    (Some(x), Some(y)) if x != y => {
+                        rep.violation(c, "C11/pair-joins-different-instructions", &format!("{}: pair ({}, {}): the input offset is the start of one operator, the output offset the start of another", label, a, b), &blob);
+                        continue;
+                    }
+                    (Some(_), None) => {
+                        rep.violation(c, "C11/pair-output-offset-is-not-an-instruction-start", &format!("{}: pair ({}, {})", label, a, b), &blob);
+                        continue;
+                    }
+                    _ => {}
+                }
             }
             match expected.get(&a) {
                 Some(e) if *e == b => {}
